@@ -2,7 +2,7 @@
    tables).  Directives: ExtrOcamlBasic and ExtrOcamlString only. *)
 From Coq Require Import ZArith List String.
 From Coq Require Extraction ExtrOcamlBasic ExtrOcamlString.
-From Gigue Require Import Types Bits Enc Disasm GenTables Builder.
+From Gigue Require Import Types Bits Enc Disasm GenTables Builder LogParse.
 
 Extraction Blacklist String List.
 
@@ -19,4 +19,8 @@ Separate Extraction
   Builder.build_interpreter_trampoline_pic_call Builder.build_switch_case Builder.build_pc_relative_reg_save
   Builder.fixer_method_base_call Builder.fixer_pic_base_call Builder.build_prologue Builder.build_epilogue
   Builder.build_call_jit_elt_trampoline Builder.build_ret_from_jit_elt_trampoline
+  LogParse.parse_dump LogParse.parse_core_log LogParse.rocket_extract LogParse.cva6_extract
+  LogParse.rocket_match LogParse.cva6_match LogParse.py_int
+  GenTables.t_runner_table_base GenTables.t_runner_table_tramp GenTables.t_runner_table_rimiss
+  GenTables.t_runner_table_rimifull GenTables.t_runner_table_fixer GenTables.t_type_keys GenTables.t_class_keys
   GenTables.base_table GenTables.rimi_table GenTables.fixer_table.
